@@ -132,6 +132,22 @@ def parse_output(path, res: TLCResult, keep_exports=True):
     return res
 
 
+def _shrink(path, limit=8 << 20):
+    """the EXPORT lines are parsed (and cached) by now: keep only the head and the tail of a big output file"""
+    try:
+        if os.path.getsize(path) <= limit:
+            return
+        with open(path, errors="replace") as fh:
+            lines = fh.readlines()
+        keep = [ln for ln in lines if not ln.startswith('<<"EXPORT"')]
+        if len(keep) == len(lines):
+            return                      # nothing to drop (verdict lines of trace validation are kept whole)
+        with open(path, "w") as fh:
+            fh.writelines(keep + ["... (export lines dropped after parsing)\n"])
+    except OSError:
+        pass
+
+
 def run(name, root, defs, cfg, workers=1, timeout=3600, simulate=None, depth=None, seed=None,
         xss="64m", heap="3g", keep_exports=True, coverage=False, extra_env=None, deadlock=False):
     """Run one TLC job synchronously."""
@@ -166,6 +182,7 @@ def run(name, root, defs, cfg, workers=1, timeout=3600, simulate=None, depth=Non
             res.error = f"TLC timed out after {timeout}s"
     res.wall = round(time.time() - t0, 2)
     parse_output(out, res, keep_exports)
+    _shrink(out)
     if rc not in (0,) and res.violated is None and res.error is None:
         res.error = f"TLC exit status {rc}; see {out}"
         res.ok = False
